@@ -20,6 +20,7 @@ import subprocess
 from concurrent.futures import ThreadPoolExecutor
 
 from vf import build, coq, forest as F, mch
+from vf.core import sh
 
 KINDS = ["statm", "pf", "cycle", "cache", "branch"]
 KIND_NAME = {"statm": "proc/statm", "pf": "page-fault", "cycle": "pmu-cycle", "cache": "pmu-cache",
@@ -40,6 +41,17 @@ Local Open Scope N_scope.
 KEY_ZERO = "zero-duration-events-twice"
 KEY_GAP = "watch-first-event-1ns"
 KEY_ROOM = "events-refused-when-args-fill-buffer"
+KEY_ONCE = "watch-var-once-per-process"
+
+
+_H = {}
+
+
+def harness(ctx):
+    """one harness (one build of /repo's tree) per run"""
+    if id(ctx) not in _H:
+        _H[id(ctx)] = mch.Harness(ctx)
+    return _H[id(ctx)]
 
 
 # ---------------------------------------------------------------- observations
@@ -245,6 +257,10 @@ def gen_case(rng, klass):
     case = {"klass": klass, "cfg": cfg, "reads": reads, "wcpu": wcpu, "wvar": wvar, "pmu": pmu, "xforest": xf,
             "pure_cpu": pure_cpu, "args": args, "rets": rets, "sargs": sargs, "srets": srets}
     evs = xflatten(xf)
+    if wvar and rng.random() < 0.5:
+        case["vsize"] = rng.choice([1, 2, 4])          # a watched variable of 1, 2 or 4 bytes
+        for e in evs:
+            e[3]["var"] &= (1 << (8 * case["vsize"])) - 1
     if klass == "any" and rng.random() < 0.1:
         evs = evs[:rng.randrange(1, len(evs) + 1)]
     case["evs"] = evs
@@ -289,6 +305,14 @@ def fixed_cases():
         kids = (call(d, 1000 + 10 * d, 2000 - 10 * d, o[d], o[11 - d], kids),)
     out.append({"klass": "any", "cfg": {"shape": "cyg", "trig": {}, "pattern": "simple"}, "reads": {1: ["pf"]},
                 "wcpu": True, "wvar": True, "pmu": False, "xforest": list(kids)})
+    # six nested entries, only the variable (resp. only the cpu) changes at every entry hook: the 5th and 6th change find
+    # the queue full and must not be forgotten: the first exit hook with a free slot reports the value
+    for wc_, wv_ in ((False, True), (True, False)):
+        kids = ()
+        for d in range(6, 0, -1):
+            kids = (call(d % 6, 1000 + 10 * d, 3000 - 10 * d, ob(cpu=d, var=0x5a5a0010 + d), ob(cpu=6, var=0x5a5a0016), kids),)
+        out.append({"klass": "any", "cfg": {"shape": "pg", "trig": {}, "pattern": "simple"}, "reads": {},
+                    "wcpu": wc_, "wvar": wv_, "pmu": False, "xforest": list(kids)})
     # hooks 1 ns apart: the first event (+1 ns) and the next entry event (-1 ns) collide
     xf = [call(0, 100, 200, ob(cpu=1), ob(cpu=4), [call(1, 101, 102, ob(cpu=2), ob(cpu=3))])]
     out.append({"klass": "any", "cfg": {"shape": "pg", "trig": {}, "pattern": "simple"}, "reads": {},
@@ -353,13 +377,17 @@ def case_env(case):
     if case["wcpu"]:
         w.append("cpu")
     if case["wvar"]:
-        w.append("var:verif_watched_var")
+        w.append("var:" + VAR_SYM[case.get("vsize", 8)])
     if w:
         env["UFTRACE_WATCH"] = ";".join(w)
     return env
 
 
-def set_obs_lines(prev, o):
+VAR_SYM = {8: "verif_watched_var", 1: "verif_watched_u8", 2: "verif_watched_u16", 4: "verif_watched_u32"}
+VAR_KNOB = {8: "VAL var", 1: "VALX var8", 2: "VALX var16", 4: "VALX var32"}
+
+
+def set_obs_lines(prev, o, vsize=8):
     out = []
     if prev is None or prev["pf"] != o["pf"]:
         out.append("VAL majfault %d" % o["pf"][0])
@@ -374,7 +402,7 @@ def set_obs_lines(prev, o):
     if prev is None or prev["cpu"] != o["cpu"]:
         out.append("VAL cpu %d" % o["cpu"])
     if prev is None or prev["var"] != o["var"]:
-        out.append("VAL var %d" % o["var"])
+        out.append("%s %d" % (VAR_KNOB[vsize], o["var"]))
     return out
 
 
@@ -390,7 +418,7 @@ def script_of(case):
         lines += str_lines()
     prev = None
     for e in case["evs"]:
-        lines += set_obs_lines(prev, e[3])
+        lines += set_obs_lines(prev, e[3], case.get("vsize", 8))
         prev = e[3]
         if e[0] == "E":
             if cyg:
@@ -448,9 +476,12 @@ def parse_stream_raw(out, case):
             data = b[off + 2:off + 2 + ln]
             if more:
                 off += (ln + 2 + 7) & ~7
-            size = 4 if addr == ID_CPU else 8
-            d = [int.from_bytes(data[i:i + size], "little") for i in range(0, len(data), size)]
-            items.append(("E", t, addr, d[1:] if addr == ID_VAR else d))
+            if addr == ID_VAR:
+                d = [int.from_bytes(data[8:], "little")]
+            else:
+                size = 4 if addr == ID_CPU else 8
+                d = [int.from_bytes(data[i:i + size], "little") for i in range(0, len(data), size)]
+            items.append(("E", t, addr, d))
         else:
             rel = addr - (base & ((1 << 48) - 1))
             k = rel // 256
@@ -479,7 +510,7 @@ def parse_stream(out):
             if eid == ID_CPU:
                 d = words(hx, 4)
             elif eid == ID_VAR:
-                d = words(hx, 8)[1:]          # drop the (randomised) address of the variable
+                d = [int.from_bytes(bytes.fromhex(hx)[8:], "little")]     # drop the (randomised) address of the variable
             else:
                 d = words(hx, 8)
             items.append(("E", t, eid, d))
@@ -632,9 +663,9 @@ def watch_spec_applicable(case):
 # ---------------------------------------------------------------- the in-process tie
 def inproc(ctx):
     rng = ctx.rng
-    h = mch.Harness(ctx)
+    h = harness(ctx)
     cases = []
-    plan = [("plain", ctx.n(45, 700)), ("watch0", ctx.n(45, 700)), ("any", ctx.n(60, 1000))]
+    plan = [("plain", ctx.n(38, 380)), ("watch0", ctx.n(38, 380)), ("any", ctx.n(50, 520))]
     todo = fixed_cases() + [gen_case(rng, klass) for klass, n in plan for _ in range(n)]
     run_all(h, todo)
     for case in todo:
@@ -650,6 +681,8 @@ def inproc(ctx):
                 tags.append("watch:cpu")
             if case["wvar"]:
                 tags.append("watch:var")
+                if case.get("vsize"):
+                    tags.append("watch:var-%d-bytes" % case["vsize"])
             if not case["pmu"]:
                 tags.append("pmu-unavailable")
             if uses_payload(case):
@@ -682,21 +715,25 @@ def inproc(ctx):
     ctx.log("in-process runs done: %d cases" % len(cases))
     evaluate(ctx, cases)
     ctx.log("Coq evaluation done")
+    reader(ctx, cases)
 
 
 def threads(ctx):
     """several threads with interleaved hooks in one process: every thread's stream and state must be the model's run
-    on that thread's own hooks and observations ("that thread's previous observation"); -W cpu only (the global
-    item of -W var is shared between threads)"""
+    on that thread's own hooks and observations ("that thread's previous observation"); with -W var the global watch
+    item is shared: those runs go through the multi-thread model (xexec_mt) only"""
     rng = ctx.rng
-    h = mch.Harness(ctx)
+    h = harness(ctx)
     cases = []
-    for it in range(ctx.n(8, 120)):
+    mt = []
+    for it in range(ctx.n(6, 60)):
         nth = rng.choice([2, 3])
         klass = rng.choice(["watch0", "any"])
         base = gen_case(rng, klass)
-        base["wvar"] = False
+        base["wvar"] = rng.random() < 0.5
         base["wcpu"] = True
+        base["pure_cpu"] = base["pure_cpu"] and not base["wvar"]
+        base.pop("vsize", None)
         base["args"], base["rets"], base["sargs"], base["srets"] = [], [], {}, []
         base["cfg"].pop("max_stack", None)
         for tr in base["cfg"]["trig"].values():      # mcount_enabled is one switch for the whole process, the model is
@@ -708,14 +745,18 @@ def threads(ctx):
             for k in ("cfg", "reads", "wcpu", "wvar", "pmu", "pure_cpu", "args", "rets", "sargs", "srets"):
                 c[k] = base[k]
             per.append(c)
-        for c in per:                                # no capture in the thread cases
+        for c in per:                                # no capture in the thread cases, 8-byte variable
+            c.pop("vsize", None)
             for e in c["evs"]:
                 for key in ("asz", "strs", "rstr"):
                     e[3].pop(key, None)
+                if base["wvar"]:
+                    e[3]["var"] = 0x5a5a0000 + rng.choice([0, 0, 1, 1, 2])     # few values: threads meet the same change
         cyg = base["cfg"].get("shape") == "cyg"
         lines = ["AUTOSTATE 2", "VALX statm_on 1", "VALX pmu_on %d" % (1 if base["pmu"] else 0)]
         pos = [0] * nth
         prev = None
+        order = []
         while any(pos[t] < len(per[t]["evs"]) for t in range(nth)):
             t = rng.choice([x for x in range(nth) if pos[x] < len(per[x]["evs"])])
             lines.append("T %d" % (t + 1))
@@ -724,6 +765,7 @@ def threads(ctx):
                     break
                 e = per[t]["evs"][pos[t]]
                 pos[t] += 1
+                order.append((t, e))
                 lines += set_obs_lines(prev, e[3])
                 prev = e[3]
                 if e[0] == "E":
@@ -736,6 +778,7 @@ def threads(ctx):
         # attribute the state lines and the dumps to the threads
         cur, states, sections, sec = None, {t + 1: [] for t in range(nth)}, {}, None
         pend_s = None
+        gstates = []
         for l in out:
             if l.startswith("T ") and len(l.split()) == 2:
                 cur = int(l.split()[1])
@@ -745,6 +788,7 @@ def threads(ctx):
             elif l.startswith("XS ") and cur and pend_s is not None:
                 k = l.split()
                 states[cur].append(tuple(pend_s) + (int(k[1]), k[2] == "1", int(k[3])))
+                gstates.append((cur - 1, states[cur][-1]))
                 pend_s = None
             elif l.startswith("BUF ") and sec is None:
                 sec = [l]
@@ -760,11 +804,330 @@ def threads(ctx):
             c = per[t]
             c["res"] = {"states": states[t + 1], "items": parse_stream(sections[t + 1]), "errno_ok": True}
             c["thread_script"] = lines
-            cases.append(c)
-        ctx.case(key=("threads", repr(base["cfg"]), tuple(lines)), tags=["threads=%d" % nth, "class:threads"],
+            if not base["wvar"]:
+                cases.append(c)         # per-thread model and checkers apply as they are
+        mt.append({"base": base, "order": order, "gstates": gstates, "items": [per[t]["res"]["items"] for t in range(nth)],
+                   "script": lines})
+        ctx.case(key=("threads", repr(base["cfg"]), tuple(lines)),
+                 tags=["threads=%d" % nth, "class:threads"] + (["threads:-W var shared item"] if base["wvar"] else []),
                  size=len(lines))
     if cases:
         evaluate(ctx, cases, "c17_threads")
+    if mt:
+        defs = "Definition mtcases : list bool := [\n%s\n].\n" % ";\n".join(
+            "agree_mt %s [%s] [%s] [%s]" % (
+                coq_xcfg(m["base"]),
+                "; ".join("(%d%%nat, %s)" % (t, coq_xevs([e])[1:-1]) for t, e in m["order"]),
+                "; ".join("(%d%%nat, %s)" % (t, coq_states([st])[1:-1]) for t, st in m["gstates"]),
+                "; ".join(coq_items(x) for x in m["items"])) for m in mt)
+        r = coq.run_cases(ctx, "c17_mt", PRE, with_shared(defs), [("mt", "bad_indices (fun b : bool => b) mtcases 0")],
+                          timeout=1500)
+        if r is not None:
+            bad = coq.parse_nat_list(r["mt"])
+            ctx.extra["thread_runs"] = len(mt)
+            if bad:
+                m = mt[bad[0]]
+                ctx.violation("model and libmcount disagree on %d multi-thread run(s) (per-thread machines + the shared -W var item)"
+                              % len(bad), {"mode": "threads", "cfg": m["base"]["cfg"], "reads": m["base"]["reads"],
+                                           "wvar": m["base"]["wvar"], "env": case_env(m["base"]), "script": m["script"],
+                                           "impl_states": m["gstates"], "impl_streams": m["items"]}, False)
+
+
+# ---------------------------------------------------------------- reader side: what the user sees of the events
+EV_NAME = {100001: "read:proc/statm", 100002: "read:page-fault", 100003: "diff:proc/statm", 100004: "diff:page-fault",
+           100005: "read:pmu-cycle", 100006: "diff:pmu-cycle", 100007: "read:pmu-cache", 100008: "diff:pmu-cache",
+           100009: "read:pmu-branch", 100010: "diff:pmu-branch", ID_CPU: "watch:cpu", ID_VAR: "watch:var"}
+EV_FIELDS = {"proc/statm": ("vmsize=%sKB", "vmrss=%sKB", "shared=%sKB"), "page-fault": ("major=%s", "minor=%s"),
+             "pmu-cycle": ("cycles=%s", "instructions=%s"), "pmu-cache": ("refers=%s", "misses=%s"),
+             "pmu-branch": ("branch=%s", "misses=%s")}
+WVAR_OFF = 0x3000       # the watched variable's place in the synthetic module
+
+
+def signed64(v):
+    return v - (1 << 64) if v >= 1 << 63 else v
+
+
+def event_text(eid, data, verbose):
+    """the text a reader must show for an event: a read event shows the readings, a diff event the (signed)
+    difference of the two readings, with an explicit sign in replay"""
+    name = EV_NAME[eid]
+    kind, what = name.split(":", 1)
+    if kind == "watch":
+        if what == "cpu":
+            v = data[0]
+            return "cpu=%d" % (v - (1 << 32) if v >= 1 << 31 else v)
+        return "wvar=%x" % data[0]
+    if kind == "read":
+        vals = ["%d" % v for v in data]
+    else:
+        vals = [("%+d" if verbose else "%d") % signed64(v) for v in data]
+    return " ".join(f % v for f, v in zip(EV_FIELDS[what], vals))
+
+
+def reader(ctx, cases):
+    """the streams the real libmcount produced, written as a data directory, read back by `uftrace dump` and
+    `uftrace replay`: every event must be shown, in stream order, inside the right call, with the values it carries
+    (utils/fstack.c read_task_event, utils/event.c names and values; diff values are signed differences)"""
+    from vf import datadir as D
+    import struct
+    objdir = harness(ctx).objdir
+    base = 0x400000
+    syms = D.default_syms(6) + [(WVAR_OFF, 8, "D", "wvar")]
+    names = [x[3] for x in syms]
+    pick = [c for c in cases if c["complete"] and hook_gaps_ok(c["evs"]) and not c.get("thread_script")
+            and any(it[0] == "E" for it in c["res"]["items"])][:ctx.n(14, 100)]
+    nev = 0
+    for ci, c in enumerate(pick):
+        recs, exp_dump, exp_replay, depth = [], [], [], 0
+        for it in c["res"]["items"]:
+            if it[0] == "R":
+                k = it[5] // 256
+                recs.append({"t": it[1], "type": it[2], "depth": it[4], "addr": base + syms[k][0]})
+                depth += 1 if it[2] == 0 else -1
+            else:
+                eid, data = it[2], it[3]
+                if eid == ID_VAR:
+                    raw = struct.pack("<Q", base + WVAR_OFF) + data[0].to_bytes(c.get("vsize", 8), "little")
+                elif eid == ID_CPU:
+                    raw = struct.pack("<I", data[0])
+                else:
+                    raw = b"".join(struct.pack("<Q", w) for w in data)
+                recs.append({"t": it[1], "type": 3, "depth": 0, "addr": eid, "payload": struct.pack("<H", len(raw)) + raw})
+                exp_dump.append("%s: %s" % (EV_NAME[eid], event_text(eid, data, False)))
+                exp_replay.append((depth, "%s (%s)" % (EV_NAME[eid], event_text(eid, data, True))))
+                nev += 1
+        d = os.path.join(ctx.scratch, "c17rd%d" % (ci % 4))
+        shutil.rmtree(d, ignore_errors=True)
+        D.write({"tasks": [{"tid": 100, "pid": 100, "ppid": None, "recs": recs}], "syms": syms, "base": base, "events": True}, d)
+        rc1, out1, err1 = D.uftrace(objdir, "dump", d)
+        rc2, out2, err2 = D.uftrace(objdir, "replay", d, ["-f", "none", "--event-full"])
+        got_dump = []
+        for l in out1.splitlines():
+            l = l.strip()
+            if l.split(":", 1)[0] in ("read", "diff", "watch") and ": " in l:
+                got_dump.append(strip_derived(l))
+        got_replay = []
+        for l in out2.splitlines():
+            t = l.strip()
+            if t.startswith("/* ") and t[3:].split(":", 1)[0] in ("read", "diff", "watch"):
+                got_replay.append(((len(l) - len(l.lstrip(" "))) // 2, strip_derived(t[3:-3].strip())))
+        ctx.case(key=("reader", repr(c["res"]["items"])), tags=["reader:dump+replay"], size=len(recs),
+                 sample={"replay": out2.splitlines()[:12]} if ci == 0 else None)
+        rep = {"mode": "reader", "records": [(r["t"], r["type"], r["addr"]) for r in recs], "expected_dump": exp_dump,
+               "got_dump": got_dump, "expected_replay": exp_replay, "got_replay": got_replay, "stderr": (err1 + err2)[-400:]}
+        if rc1 != 0 or rc2 != 0:
+            ctx.violation("C17 (reader): uftrace dump/replay fails on a recorded stream with events (rc %d/%d)" % (rc1, rc2),
+                          rep, True)
+        elif got_dump != exp_dump:
+            ctx.violation("C17 (reader): `uftrace dump` does not show the events of the stream with the values they carry",
+                          rep, True)
+        elif [list(x) for x in got_replay] != [list(x) for x in exp_replay]:
+            ctx.violation("C17 (reader): `uftrace replay` does not show the events of the stream inside the right call with the "
+                          "values they carry (diff values are signed differences)", rep, True)
+    ctx.extra["reader_events_checked"] = nev
+
+
+def strip_derived(txt):
+    """drop the derived ratios replay appends to pmu diff events (IPC= / hit= / predict=)"""
+    for key in (" IPC=", " hit=", " predict="):
+        i = txt.find(key)
+        if i >= 0:
+            txt = txt[:i] + (")" if txt.endswith(")") else "")
+    return txt
+
+
+# ---------------------------------------------------------------- end to end: generated programs under `uftrace record`
+E2E_METHODS = [("pg", ["-pg"], []), ("fentry", ["-pg", "-mfentry"], []), ("cyg", ["-finstrument-functions"], []),
+               ("patchable", ["-fpatchable-function-entry=5"], ["-P", "."])]
+
+
+def e2e_decode(d):
+    """own decoder of the main task's .dat: [('R', time, type, depth, name) | ('E', time, id, [words])]"""
+    import struct
+    base, exe, syms = None, None, []
+    for mp in glob.glob(os.path.join(d, "sid-*.map")):
+        for line in open(mp):
+            k = line.split()
+            if len(k) >= 6 and "/" in k[5] and base is None and ".so" not in k[5]:
+                base, exe = int(k[0].split("-")[0], 16), os.path.basename(k[5])
+    for line in open(os.path.join(d, exe + ".sym"), errors="replace"):
+        k = line.split()
+        if not line.startswith("#") and len(k) >= 4:
+            syms.append((int(k[0], 16), int(k[1], 16), k[3]))
+    out = {}
+    for df in glob.glob(os.path.join(d, "*.dat")):
+        tid = os.path.basename(df)[:-4]
+        if not tid.isdigit():
+            continue
+        b, off, items = open(df, "rb").read(), 0, []
+        while off + 16 <= len(b):
+            t, w = struct.unpack_from("<QQ", b, off)
+            off += 16
+            ty, more, depth, addr = w & 3, (w >> 2) & 1, (w >> 6) & 0x3ff, w >> 16
+            if ty == 3:
+                ln = struct.unpack_from("<H", b, off)[0] if more else 0
+                data = b[off + 2:off + 2 + ln]
+                if more:
+                    off += (ln + 2 + 7) & ~7
+                if addr == ID_VAR:
+                    wd = [int.from_bytes(data[8:], "little")]
+                else:
+                    sz = 4 if addr == ID_CPU else 8
+                    wd = [int.from_bytes(data[i:i + sz], "little") for i in range(0, len(data), sz)]
+                items.append(("E", t, addr, wd))
+            else:
+                name = "?"
+                for a, z, n in syms:
+                    if a <= addr - base < a + max(z, 1):
+                        name = n
+                items.append(("R", t, ty, depth, name))
+        out[int(tid)] = items
+    return out
+
+
+def e2e(ctx):
+    """generated C programs recorded by the real `uftrace record` with read= triggers and -W var (all instrumentation
+    methods incl. dynamic patching; a library call through the PLT hook): entry paths the in-process driver does not
+    reach, the writer thread and the files.  Oracles: nesting after erasing; READ right after ENTRY / DIFF right before
+    EXIT of every function with the trigger, differences >= 0 and the page-fault readings non-decreasing; the variable's
+    events = the changes of its value at the hooks (computed from the program text); times inside the enclosing call."""
+    rng = ctx.rng
+    objdir = harness(ctx).objdir
+    uft = os.path.join(objdir, "uftrace")
+    work = os.path.join(ctx.scratch, "e2e")
+    os.makedirs(work, exist_ok=True)
+    for pi in range(ctx.n(4, 10)):
+        method, cflags, rflags = E2E_METHODS[pi % 4] if pi < 4 else rng.choice(E2E_METHODS)
+        fo = F.gen_shape(rng, 4, rng.choice([4, 8, 14]), 4)
+        cnt = [0]
+        protos, bodies, hooks = [], [], []        # hooks: ('E'|'X', name, value of gv the hook observes)
+        gv = [0]
+        use_plt = method == "pg"
+
+        def emit(c):
+            cnt[0] += 1
+            name = "n%d_f%d" % (cnt[0], c.k)
+            hooks.append(("E", name, gv[0]))
+            pre = post = ""
+            if rng.random() < 0.3:
+                gv[0] = rng.randrange(1, 6)
+                pre = "gv = %d;" % gv[0]
+            calls = []
+            for k in c.kids:
+                calls.append(emit(k) + "();")
+                if rng.random() < 0.2:
+                    gv[0] = rng.randrange(1, 6)
+                    calls.append("gv = %d;" % gv[0])
+            if use_plt and c.k == 3 and not c.kids:
+                calls.append("sink += getpid();")
+                hooks.append(("E", "getpid", gv[0]))
+                hooks.append(("X", "getpid", gv[0]))
+            if rng.random() < 0.3:
+                gv[0] = rng.randrange(1, 6)
+                post = "gv = %d;" % gv[0]
+            hooks.append(("X", name, gv[0]))
+            protos.append("void %s(void);" % name)
+            bodies.append("__attribute__((noinline)) void %s(void) { %s for (volatile int i = 0; i < 50; i++) sink += i; %s %s }"
+                          % (name, pre, " ".join(calls), post))
+            return name
+        hooks.append(("E", "main", 0))
+        roots = [emit(c) for c in fo]
+        hooks.append(("X", "main", gv[0]))
+        src = "\n".join(["#include <unistd.h>", "volatile long gv;", "static volatile unsigned long sink;"] + protos + bodies +
+                        ["int main(void) { %s return 0; }" % " ".join(r + "();" for r in roots)]) + "\n"
+        cfile, exe, dd = [os.path.join(work, "p%d%s" % (pi, x)) for x in (".c", "", ".data")]
+        open(cfile, "w").write(src)
+        rc, o, e = sh(["gcc", "-O1", "-o", exe, cfile] + cflags, timeout=120)
+        if rc != 0:
+            ctx.broken("e2e program does not compile", e[-400:])
+            continue
+        trig = "_f1$@read=page-fault"
+        opts = ["-W", "var:gv", "-T", trig] + (["-T", "getpid@read=page-fault"] if use_plt else ["--no-libcall"])
+        shutil.rmtree(dd, ignore_errors=True)
+        rc, o, e = sh(["timeout", "60", uft, "record", "--no-pager", "--no-event", "--libmcount-path=" + objdir, "-d", dd]
+                      + opts + rflags + [exe], timeout=90)
+        rep = {"mode": "e2e", "method": method, "opts": opts, "program": src}
+        ctx.case(key=("e2e", method, src), tags=["e2e:" + method] + (["e2e:plt-libcall"] if use_plt and any(
+            h[1] == "getpid" for h in hooks) else []), size=len(hooks))
+        if rc != 0:
+            ctx.violation("C17 (end to end, %s): uftrace record with read= / -W var failed (rc=%d)" % (method, rc),
+                          dict(rep, stderr=e[-400:]), True)
+            continue
+        streams = e2e_decode(dd)
+        items = max(streams.values(), key=len)
+        # keep what the program itself did: from ENTRY main to EXIT main
+        names = [it[4] if it[0] == "R" else None for it in items]
+        if "main" not in names:
+            ctx.violation("C17 (end to end, %s): main is not in the recorded stream" % method, rep, True)
+            continue
+        i0 = names.index("main")
+        i1 = len(names) - 1 - names[::-1].index("main")
+        body = items[i0:i1 + 1]
+        rep["stream"] = [list(x) for x in body][:80]
+        # 1. nesting after erasing, and the calls of the program in order
+        got = [(("E" if it[2] == 0 else "X"), it[4]) for it in body if it[0] == "R"]
+        if got != [(h[0], h[1]) for h in hooks]:
+            ctx.violation("C17 (end to end, %s): erasing the events does not leave the program's call history" % method,
+                          dict(rep, expected=[(h[0], h[1]) for h in hooks][:60], got=got[:60]), True)
+            continue
+        # 2. read / diff adjacency and plausibility
+        bad = None
+        last_minor = -1
+        for i, it in enumerate(body):
+            if it[0] != "R":
+                continue
+            trg = it[4].endswith("_f1") or it[4] == "getpid"
+            nxt = body[i + 1] if i + 1 < len(body) else None
+            prv = body[i - 1] if i > 0 else None
+            if it[2] == 0:
+                isr = nxt is not None and nxt[0] == "E" and nxt[2] == 100002 and nxt[1] == it[1]
+                if trg != isr:
+                    bad = "ENTRY %s %s followed by a read event" % (it[4], "is not" if trg else "is")
+                elif isr:
+                    if nxt[3][1] < last_minor:
+                        bad = "page-fault readings go down"
+                    last_minor = nxt[3][1]
+            else:
+                isd = prv is not None and prv[0] == "E" and prv[2] == 100004 and prv[1] == it[1]
+                if trg != isd:
+                    bad = "EXIT %s %s preceded by a diff event" % (it[4], "is not" if trg else "is")
+                elif isd and any(signed64(v) < 0 or signed64(v) > 1 << 20 for v in prv[3]):
+                    bad = "implausible page-fault difference %r" % (prv[3],)
+            if bad:
+                break
+        if bad:
+            ctx.violation("C17 (end to end, %s): %s" % (method, bad), rep, True)
+            continue
+        # 3. -W var: the changes of gv at the hooks
+        exp, prev = [], 0
+        for hk in hooks:
+            if hk[2] != prev:
+                exp.append(hk[2])
+            prev = hk[2]
+        gotv = [it[3][0] for it in body if it[0] == "E" and it[2] == ID_VAR]
+        if gotv != exp:
+            ctx.violation("C17 (end to end, %s): -W var:gv events %r, changes of gv at the hooks %r" % (method, gotv, exp),
+                          rep, True)
+            continue
+        # 4. every event inside the enclosing call's interval
+        stk = []
+        for it in body:
+            if it[0] == "R" and it[2] == 0:
+                stk.append([it[1], it[1]])
+            elif it[0] == "R":
+                t0, m = stk.pop()
+                if m > it[1]:
+                    ctx.violation("C17 (end to end, %s): an event is stamped after the EXIT of the enclosing call" % method, rep, True)
+                    break
+            elif stk:
+                if it[1] < stk[-1][0]:
+                    ctx.violation("C17 (end to end, %s): an event is stamped before the ENTRY of the enclosing call" % method,
+                                  rep, True)
+                    break
+                stk[-1][1] = max(stk[-1][1], it[1])
+        ctx.extra["e2e_events_checked"] = ctx.extra.get("e2e_events_checked", 0) + sum(1 for it in body if it[0] == "E")
+        ctx.extra["e2e_read_functions"] = ctx.extra.get("e2e_read_functions", 0) + sum(
+            1 for hk in hooks if hk[0] == "E" and (hk[1].endswith("_f1") or hk[1] == "getpid"))
 
 
 def sample_of(case):
@@ -775,7 +1138,7 @@ def sample_of(case):
 def replay_obj(case, extra=None):
     o = {"mode": "inproc", "klass": case["klass"], "cfg": case["cfg"], "reads": case["reads"], "wcpu": case["wcpu"],
          "wvar": case["wvar"], "pmu": case["pmu"], "args": case.get("args", []), "rets": case.get("rets", []),
-         "sargs": case.get("sargs", {}), "srets": case.get("srets", []), "events": case["evs"], "env": case_env(case),
+         "sargs": case.get("sargs", {}), "srets": case.get("srets", []), "vsize": case.get("vsize", 8), "events": case["evs"], "env": case_env(case),
          "impl_states": case["res"]["states"], "impl_stream": case["res"]["items"]}
     if case.get("thread_script"):
         o["thread_script"] = case["thread_script"]
@@ -824,6 +1187,10 @@ def evaluate(ctx, cases, name="c17_cases"):
     wss = [(i, c) for i, c in enumerate(cases) if c.get("pure_cpu") and c["complete"] and hook_gaps_ok(c["evs"])]
     defs += "Definition wspeccases : list bool := [\n%s\n].\n" % ";\n".join(
         "(let '(_, b, _, r) := nth %d cases d0 in list_eqb oitem_eqb r (wspec b))" % i for i, c in wss)
+    hss = [(i, c) for i, c in enumerate(cases) if c["klass"] == "watch0" and c["complete"] and hook_gaps_ok(c["evs"])
+           and room_ok(c) and not c["cfg"].get("threshold") and c["cfg"].get("depth") is None]
+    defs += "Definition hspeccases : list bool := [\n%s\n].\n" % ";\n".join(
+        "(let '(a, b, _, r) := nth %d cases d0 in list_eqb oitem_eqb r (hspec a b))" % i for i, c in hss)
     T = "(xcfg * list xev * list xobs * list oitem)"
     res = coq.run_cases(ctx, name, PRE, with_shared(defs), [
         ("mismatch", "bad_indices (fun c : %s => let '(a, b, o, r) := c in agree_x a b o r) cases 0" % T),
@@ -836,6 +1203,7 @@ def evaluate(ctx, cases, name="c17_cases"):
         ("spec", "bad_indices (fun b : bool => b) speccases 0"),
         ("watch", "bad_indices (fun b : bool => b) watchcases 0"),
         ("wspec", "bad_indices (fun b : bool => b) wspeccases 0"),
+        ("hspec", "bad_indices (fun b : bool => b) hspeccases 0"),
     ], timeout=1500)
     if res is None:
         return
@@ -862,7 +1230,13 @@ def evaluate(ctx, cases, name="c17_cases"):
     for j in R["wspec"][:2]:
         ctx.violation("C17: the stream with -W cpu differs from the hook-by-hook specification (event iff changed, "
                       "stamp, position in front of the hook's record)", replay_obj(wss[j][1]), True)
-    if R["mismatch"] and not (R["nested"] or R["adjacent"] or R["times"] or R["spec"] or R["watch"] or R["wspec"]):
+    ctx.extra["stream_spec_checks"] = ctx.extra.get("stream_spec_checks", 0) + len(hss)
+    for j in R["hspec"][:2]:
+        ctx.violation("C17: the stream (read= + -W cpu / -W var, no threshold) differs from the hook-by-hook specification "
+                      "(every hook's watch events in front of its record, read events behind ENTRY, diff events before EXIT)",
+                      replay_obj(hss[j][1]), True)
+    if R["mismatch"] and not (R["nested"] or R["adjacent"] or R["times"] or R["spec"] or R["watch"] or R["wspec"]
+                              or R["hspec"]):
         c = cases[R["mismatch"][0]]
         ctx.violation("model and libmcount disagree on %d case(s); the C17 checkers accept every explored implementation "
                       "output" % len(R["mismatch"]),
@@ -897,7 +1271,7 @@ def parse_raw_tail(hexs, first_payload):
 
 def regressions(ctx):
     """the witnesses of the four defects this check found (7cf042b, aa8baff, 35535f9, 197b449): ordinary cases now"""
-    h = mch.Harness(ctx)
+    h = harness(ctx)
     # (1) read= and argument capture in one frame (the slot above the frame is primed with a known size word)
     env = {"UFTRACE_TRIGGER": "f0@read=page-fault", "UFTRACE_ARGUMENT": "f0@arg1;f3@arg1"}
     script = ["VAL pagefault 5", "E 2 1000", "EA 3 1010 7", "X 1020", "X 1030", "EA 0 5000 7", "VAL pagefault 9", "X 5200",
@@ -939,9 +1313,40 @@ def regressions(ctx):
                       "got cpu events %r" % (cpus,), {"mode": "witness", "script": script, "env": env, "out": out[-12:]}, True)
 
 
+def regressions2(ctx):
+    """witnesses of the two defects repaired in the second extension round"""
+    h = harness(ctx)
+    # (4) --estimate-return: at the end of a thread a time-filtered open call must not drop the events of its caller
+    script = ["T 1", "VAL cpu 1", "CE 0 100", "VAL cpu 2", "CE 1 1000", "TIME 1010", "TEND"]
+    env = {"UFTRACE_ESTIMATE_RETURN": "1", "UFTRACE_WATCH": "cpu", "UFTRACE_THRESHOLD": "50"}
+    out, _ = run_script(h, script, env, 97)
+    st = parse_stream(out)
+    got = [(it[0], it[1]) + ((it[2], it[3][0]) if it[0] == "E" else (it[2], it[5])) for it in st]
+    ctx.case(key=("regression", "estimate-finish"), tags=["regression:estimate-finish-drops-caller-events"],
+             sample={"script": script, "stream": got})
+    if got != [("R", 100, 0, 0), ("E", 101, ID_CPU, 1), ("R", 1012, 1, 0)]:
+        ctx.violation("C17: --estimate-return, thread end with f0{f1} open, f1 below the time filter: expected ENTRY f0, "
+                      "watch:cpu=1, EXIT f0; got %r" % (got,), {"mode": "witness", "script": script, "env": env,
+                                                               "out": out[-10:]}, True)
+    # (5) a cpu change that finds the queue full is reported by the next hook with a free slot
+    script = []
+    for d in range(1, 7):
+        script += ["VAL cpu %d" % d, "E %d %d" % (d % 6, 1000 + 10 * d)]
+    script += ["X %d" % (2000 + 10 * d) for d in range(1, 7)] + ["DUMP"]
+    env = {"UFTRACE_WATCH": "cpu"}
+    out, _ = run_script(h, script, env, 98)
+    cpus = [it[3][0] for it in parse_stream(out) if it[0] == "E" and it[2] == ID_CPU]
+    ctx.case(key=("regression", "cpu-full"), tags=["regression:cpu-change-lost-when-queue-full"],
+             sample={"script": script, "cpu_events": cpus})
+    if cpus != [1, 2, 3, 4, 6]:
+        ctx.violation("C17: -W cpu, six nested entries with cpu 1..6: expected events 1,2,3,4 and (after the first record "
+                      "freed the queue) 6; got %r" % (cpus,), {"mode": "witness", "script": script, "env": env,
+                                                               "out": out[-14:]}, True)
+
+
 def regression_valgrind(ctx):
     """thorough tier: no invalid access / uninitialised use in the -W var path (197b449), memcheck on the real libmcount"""
-    h = mch.Harness(ctx)
+    h = harness(ctx)
     d = os.path.join(ctx.scratch, "c17vg")
     os.makedirs(d, exist_ok=True)
     e = {k: v for k, v in os.environ.items() if not k.startswith("UFTRACE_")}
@@ -970,7 +1375,7 @@ def regression_valgrind(ctx):
 
 # ---------------------------------------------------------------- known findings that remain
 def known(ctx):
-    h = mch.Harness(ctx)
+    h = harness(ctx)
     # a recorded call of zero duration gets every read / diff event twice (C17_zero_duration_refuted)
     script = ["VAL pagefault 5", "E 0 100", "VAL pagefault 9", "X 100", "DUMP"]
     env = {"UFTRACE_TRIGGER": "f0@read=page-fault,trace"}
@@ -997,6 +1402,27 @@ def known(ctx):
                       {"mode": "witness", "script": script, "env": env, "out": out[-6:]}, True)
     ctx.known_finding(KEY_ROOM, "a function with read= whose captured arguments fill the frame buffer loses its events",
                       still_fails=ids == [], replay={"mode": "witness", "script": script, "env": env})
+    # -W var with two threads: a change is reported by the first thread that notices it only (C17_watch_var_threads_refuted)
+    script = ["T 1", "VAL var 3", "E 0 100", "T 2", "E 0 105", "T 1", "VAL var 4", "X 200", "T 2", "X 205",
+              "T 1", "DUMP", "T 2", "DUMP"]
+    env = {"UFTRACE_WATCH": "var:verif_watched_var"}
+    out, _ = run_script(h, script, env, 96)
+    secs, cur = [], None
+    for l in out:
+        if l.startswith("BUF ") and cur is None:
+            cur = []
+        if cur is not None:
+            cur.append(l)
+            if l == "END":
+                secs.append(cur)
+                cur = None
+    vals = [[it[3][0] for it in parse_stream(sec) if it[0] == "E" and it[2] == ID_VAR] for sec in secs]
+    ctx.case(key=("known", KEY_ONCE), tags=["known:" + KEY_ONCE], sample={"script": script, "var_events_per_thread": vals})
+    if vals not in ([[4], []], [[4], [4]]):
+        ctx.violation("C17: -W var, two threads observing 3 then 4: var events per thread %r" % (vals,),
+                      {"mode": "witness", "script": script, "env": env, "out": out[-14:]}, True)
+    ctx.known_finding(KEY_ONCE, "-W var: a change is reported only by the first thread that notices it",
+                      still_fails=vals == [[4], []], replay={"mode": "witness", "script": script, "env": env})
     # the hook after a thread's first hook comes 1 ns later: an event is written inside a call that starts after
     # the event's time stamp (C17_watch_times_gap1_refuted)
     script = ["VAL cpu 1", "E 0 100", "VAL cpu 2", "E 1 101", "VAL cpu 3", "X 102", "VAL cpu 4", "X 200", "DUMP"]
@@ -1052,8 +1478,8 @@ def meta(ctx):
         "is read from the source and tied by generated string return values of 5..150 characters",
         "one thread per case for -W var (the global watch item is shared between threads); no trace_on/trace_off under "
         "interleaved threads (mcount_enabled is one switch for the whole process, the model is per thread)",
-        "stream-level placement of watch events is a theorem only on the bounded domain of C17_watch_stream_small; "
-        "elsewhere it is tied by correspondence and the times / watch checkers",
+        "stream-level placement of watch events is a theorem for configurations without threshold (C17_stream_spec); with "
+        "thresholds / filters it is tied by correspondence and the times / watch checkers",
         "perf counters and /proc/self/statm are replaced by interposed sources; the kernel interfaces themselves are not exercised",
     ]
 
@@ -1063,9 +1489,11 @@ def run(ctx):
     coq.prove(ctx, "C17")
     build.get_build("plain", ctx.log)
     regressions(ctx)
+    regressions2(ctx)
     known(ctx)
     inproc(ctx)
     threads(ctx)
+    e2e(ctx)
     if ctx.thorough():
         regression_valgrind(ctx)
 
@@ -1075,13 +1503,13 @@ def replay(ctx, obj):
     coq.prove(ctx, "C17")
     if obj.get("mode") != "inproc" or "events" not in obj:
         return run(ctx)
-    h = mch.Harness(ctx)
+    h = harness(ctx)
     cfg = obj["cfg"]
     cfg["trig"] = {int(k): v for k, v in cfg.get("trig", {}).items()}
     case = {"klass": obj.get("klass", "any"), "cfg": cfg, "reads": {int(k): v for k, v in obj["reads"].items()},
             "wcpu": obj["wcpu"], "wvar": obj["wvar"], "pmu": obj["pmu"], "args": obj.get("args", []),
             "rets": obj.get("rets", []), "sargs": {int(k): v for k, v in obj.get("sargs", {}).items()},
-            "srets": obj.get("srets", []),
+            "srets": obj.get("srets", []), "vsize": obj.get("vsize", 8),
             "evs": [tuple(e) for e in obj["events"]], "complete": False, "xforest": []}
     case["res"] = run_case(h, case)
     ctx.case(key="replay", sample=sample_of(case))
